@@ -235,6 +235,12 @@ func (g *gen) receiveCase(w *world, pw *kfWorker) {
 			return
 		}
 	}
+	// first pieces that announce a long stream (in-process only: nothing here can overflow the stack)
+	for k := 0; pw == nil && k < 3 && !w.dead; k++ {
+		if g.firstFragmentCase(w, l, state) {
+			return
+		}
+	}
 	// still usable? finish whatever genuine traffic is in flight, then (re)establish and exchange a probe
 	l.settle(40)
 	if !l.a.c.IsEncrypted() || !l.b.c.IsEncrypted() {
@@ -253,7 +259,7 @@ func (g *gen) receiveCase(w *world, pw *kfWorker) {
 			for i := 0; i < 2 && !w.dead; i++ {
 				l.enqueue(l.b, []otr3.ValidMessage{w.query(l.b)})
 				l.settle(40)
-				w.tick(61)
+				w.tick(75)
 			}
 			olog.ok("C13")
 			if w.dead {
@@ -281,6 +287,104 @@ func (g *gen) receiveCase(w *world, pw *kfWorker) {
 			olog.viol("C13", "unusable-after-hostile-input", fmt.Sprintf("after hostile input in state %d a genuine message is no longer delivered", state))
 		}
 	}
+}
+
+// ---------------------------------------------------------------------------------------------
+// first fragments that announce many pieces
+//
+// The first piece of a fragment stream (index 1) names the number of pieces to come; that number is
+// the sender's claim and nothing else. What Receive allocates for such a piece, and what the
+// conversation keeps of it afterwards, is bounded by the piece itself: a message of a few hundred
+// bytes must cost the same whether it says "1 of 2" or "1 of 65535". Both header formats (the OTRv3
+// one with the instance tags of this conversation, so that it is accepted), every conversation state.
+// Violation keys: receive-allocates (bytes allocated during the call, runtime.MemStats.TotalAlloc),
+// receive-retains (growth of the byte buffers reachable from the conversation, capacity included).
+
+func (g *gen) firstFragment(l *link) (m []byte, total, piece int) {
+	sa, sb := otr3.VerifSnapshot(l.a.c), otr3.VerifSnapshot(l.b.c)
+	v := sa.Version
+	if v == 0 || g.r.Intn(6) == 0 {
+		v = 2 + g.r.Intn(2)
+		if sa.Version == 0 && sa.Policies&6 == 2 {
+			v = 2
+		} else if sa.Version == 0 && sa.Policies&6 == 4 {
+			v = 3
+		}
+	}
+	// the larger the announced total the smaller the piece: a library that multiplies the two stays
+	// within some 70 MB for a single call
+	switch g.r.Intn(6) {
+	case 0:
+		total, piece = 100, 100+g.r.Intn(3901)
+	case 1, 2:
+		total, piece = 1000, 100+g.r.Intn(3901)
+	case 3:
+		total, piece = 2+g.r.Intn(65534), 100+g.r.Intn(901)
+	default:
+		total, piece = 65535, 100+g.r.Intn(1001)
+	}
+	hdr := "?OTR,"
+	if v == 3 {
+		s, r := sb.OurTag, sa.OurTag
+		if s == 0 {
+			s = 0x100 + uint32(g.r.Intn(1000))
+		}
+		if sa.TheirTag != 0 {
+			s = sa.TheirTag
+		}
+		if g.r.Intn(4) == 0 {
+			r = 0
+		}
+		if g.r.Intn(2) == 0 {
+			hdr = fmt.Sprintf("?OTR|%08x|%08x,", s, r)
+		} else {
+			hdr = fmt.Sprintf("?OTR|%x|%x,", s, r)
+		}
+	}
+	numf := "%05d"
+	if g.r.Intn(3) == 0 {
+		numf = "%d"
+	}
+	data := make([]byte, piece)
+	for i := range data {
+		data[i] = "ABCDEFGHIJKLMNOPQRSTUVWXYZabcdefghijklmnopqrstuvwxyz0123456789+/"[g.r.Intn(64)]
+	}
+	if g.r.Intn(2) == 0 {
+		copy(data, "?OTR:AAMD")
+	}
+	return []byte(hdr + fmt.Sprintf(numf+","+numf+",", 1, total) + string(data) + ","), total, piece
+}
+
+// returns true when the call panicked (the conversation is gone)
+func (g *gen) firstFragmentCase(w *world, l *link, state int) bool {
+	m, total, piece := g.firstFragment(l)
+	g.dist[fmt.Sprintf("firstfrag:state%d", state)]++
+	_, before := otr3.VerifScan(l.a.c, nil)
+	var m0, m1 runtime.MemStats
+	runtime.ReadMemStats(&m0)
+	_, _, _, pan := w.recv(l.a, m)
+	runtime.ReadMemStats(&m1)
+	olog.ok("C13")
+	if pan {
+		olog.viol("C13", "parser-panics:Receive(first fragment)", fmt.Sprintf("Receive panicked in state %d on the first fragment %.60q… (%d bytes, 1 of %d, piece of %d bytes)", state, m, len(m), total, piece))
+		return true
+	}
+	sn := otr3.VerifSnapshot(l.a.c)
+	if sn.FragIndex == 1 {
+		g.dist["firstfrag:kept"]++
+	}
+	what := fmt.Sprintf("conversation state %d of the parse profile (0 fresh, 1-3 that many key exchange messages delivered, 4 encrypted, 5 finished, 6 SMP in progress), Receive of the %d bytes %.48q… (first fragment, 1 of %d, piece of %d random base64 characters)", state, len(m), m, total, piece)
+	// the call: the harness itself writes the message in hex twice and a state line, a few times the input
+	if alloc := m1.TotalAlloc - m0.TotalAlloc; alloc > uint64(256<<10+64*len(m)) {
+		olog.viol("C13", "receive-allocates", fmt.Sprintf("%s allocated %d bytes (%d times the input)", what, alloc, alloc/uint64(len(m))))
+	}
+	// what is kept: the piece, and nothing that grows with the announced total
+	_, after := otr3.VerifScan(l.a.c, nil)
+	olog.ok("C13")
+	if grown := after - before; grown > 4096+4*len(m) {
+		olog.viol("C13", "receive-retains", fmt.Sprintf("%s leaves the conversation holding %d bytes more than before in byte buffers (capacity included), %d times the input; fragment context afterwards: %d bytes collected, index %d of %d", what, grown, grown/len(m), sn.FragSize, sn.FragIndex, sn.FragLen))
+	}
+	return false
 }
 
 // ---------------------------------------------------------------------------------------------
